@@ -30,10 +30,10 @@ ASSUMPTIONS = [
 ]
 
 SPAN = [2000, 2001, 2002, 2003]
-SPANS = {'int': [2000, 2001, 2002, 2003], 'alias-named': ['K', 'I', 'J', 'p3']}  # period labels that equal alias names are still period labels
-LAB = {'int': (2001, 2002, 2003), 'alias-named': ('I', 'J', 'p3')}
+SPANS = {'int': [2000, 2001, 2002, 2003], 'alias-named': ['K', 'I', '_J', 'p3']}  # period labels that equal alias names are still period labels
+LAB = {'int': (2001, 2002, 2003), 'alias-named': ('I', '_J', 'p3')}
 VARS = ['Y', 'Z', 'X']
-ALIASES = ['I', 'J', 'K']
+ALIASES = ['I', '_J', 'K']  # an alias may be any identifier, one that starts with an underscore included
 
 _BASE = fsic.build_model(fsic.parse_model('Y = 0.5 * Y[-1] + X\nZ = Y + X'))
 _CLS = {}
@@ -200,16 +200,35 @@ def run_history_case(case):
     if canon(ra) != canon(rb) or state(m) != state(twin):
         out.append(('solve', 'same as twin', 'differs', 'solution differs from the canonical twin'))
         return out
-    out += check_export(m, twin, amap, pref)
+    out += check_export(m, twin, amap, pref, case.get('export_options', not hist and len(pref) <= 1))
     return out
 
 
-def check_export(m, twin, amap, pref):
+EXPORT_OPTIONS = [{}, {'status': False}, {'iterations': False}, {'status': False, 'iterations': False}, {'include_internal': True}, {'include_internal': True, 'status': False}]
+
+
+def check_export(m, twin, amap, pref, with_options=False):
     out = []
-    base = twin.to_dataframe()
-    plain = m.to_dataframe()
+    if with_options:  # (histories of writes are exported with the default options only)
+        for o in (m, twin):
+            o.add_variable('_U', [9.0, 8.0, 7.0, 6.0])  # an internal variable: exported only on request
+    for opt in (EXPORT_OPTIONS if with_options else EXPORT_OPTIONS[:1]):
+        v = check_export_with(m, twin, amap, pref, opt, with_options)
+        if v:
+            return [(k + (':options' if opt else ''), e, o, w + (' with %r' % (opt,) if opt else '')) for k, e, o, w in v]
+    return out
+
+
+def check_export_with(m, twin, amap, pref, opt, full=True):
+    out = []
+    base = twin.to_dataframe(**opt)
+    plain = m.to_dataframe(**opt)
     if list(plain.columns) != list(base.columns) or not all(canon(plain[c].values) == canon(base[c].values) for c in base.columns):
         out.append(('export:default', list(base.columns), list(plain.columns), 'default export differs from the twin'))
+        return out
+    explicit = m.to_dataframe(use_aliases=False, **opt) if full else plain
+    if list(explicit.columns) != list(base.columns) or not all(canon(explicit[c].values) == canon(base[c].values) for c in base.columns):
+        out.append(('export:use_aliases=False', list(base.columns), list(explicit.columns), 'export with use_aliases=False differs from the twin'))
         return out
     groups = {}
     for a in amap:
@@ -218,7 +237,7 @@ def check_export(m, twin, amap, pref):
             groups.setdefault(c, []).append(a)
     ambiguous = len({resolve(amap, p) for p in pref}) < len(pref)
     try:
-        df = m.to_dataframe(use_aliases=True)
+        df = m.to_dataframe(use_aliases=True, **opt)
     except ValueError:
         if ambiguous:
             return out
